@@ -13,7 +13,7 @@ use crate::srv::{http_get, http_request, rtr_query, TestServer};
 
 pub const C33: Check = Check {
     id: "C33",
-    level: "exploration",
+    level: "fault_enumeration",
     rule: "in-process server stepping with histories of successful and failed runs (forced retryable / fatal outcome at the \
            run's entry via fault hook; natural mid-run failures are driven by the C23/C41 world legs). Around every failed \
            run the harness records at the real listeners: RTR reset answer (state + full set), RTR serial-query answer, \
